@@ -23,7 +23,7 @@ type Prog struct {
 	RepoDir string
 	Tags    string
 
-	funcs    map[string]*FuncInfo   // funcID -> info (declared functions and methods of the repo)
+	funcs    map[string]*FuncInfo // funcID -> info (declared functions and methods of the repo)
 	byObj    map[*types.Func]*FuncInfo
 	litOwner map[*ast.FuncLit]*FuncInfo
 	NFuncs   int
